@@ -42,7 +42,15 @@ def augment(lines, impl_out):
     """`vs poll` lines get `a=<v1,v2,...>`: the values the real congestion controller returned during that
     poll (window / sshthresh / smss reads), in call order, which the model adopts (adopt-and-compare)."""
     res = []
+    prev_cubic = None
     for l, o in zip(lines, impl_out):
+        if l.startswith("cubic "):
+            from gens import cubic as _cubic
+            if prev_cubic and not l.startswith("cubic new"):
+                l = l + " " + prev_cubic
+            prev_cubic = _cubic.pre_token(o)
+            res.append(l)
+            continue
         if l.startswith("vs poll") and "cc=[" in o:
             cc = o.split("cc=[", 1)[1].split("]", 1)[0]
             vals = [x.split("=")[1] for x in cc.split(",") if x.startswith(("window=", "sshthresh=", "smss="))]
@@ -60,9 +68,10 @@ def scale(tier, quick, thorough):
     return thorough if tier == "thorough" else quick
 
 
-from gens import pure, wire, mtu, txring, rx, segs, vsock, vsock_props  # noqa: E402,F401  (registers generators / oracles)
+from gens import cubic, pure, wire, mtu, txring, rx, segs, vsock, vsock_props  # noqa: E402,F401  (registers generators / oracles)
 
 pure.register(sys.modules[__name__])
+cubic.register(sys.modules[__name__])
 wire.register(sys.modules[__name__])
 mtu.register(sys.modules[__name__])
 txring.register(sys.modules[__name__])
